@@ -435,7 +435,7 @@ theorem clearStoreRelated_goodV {c : C} (h : GoodV c.s) : GoodV (clearStoreRelat
     change; the kept entries are a sublist of the input; pid sets only lose identifiers of
     dropped entries -/
 theorem sendStoredLoop_s {c : C} (hp : PidWf c.s.pidMan) (l : List (Nat × Pkt))
-    (hb : c.s.sendMax.isSome → c.s.sendCount + l.length ≤ 65535)
+    (hb : c.s.sendMax.isSome → c.s.sendCount + l.length ≤ 4294967295)
     (hn : (l.map (·.1)).Nodup) :
     ∃ a n pa pr pc, PidWf a ∧
       (sendStoredLoop c l).1.s =
@@ -477,7 +477,7 @@ theorem sendStoredLoop_s {c : C} (hp : PidWf c.s.pidMan) (l : List (Nat × Pkt))
         · have := s4 i (by simp only [mem_del]; grind)
           exact ⟨by simp [this.1], this.2⟩
     · have key : ∀ c' : C, c'.s = { c.s with sendCount := c'.s.sendCount } → PidWf c'.s.pidMan →
-          (c'.s.sendMax.isSome → c'.s.sendCount + rest.length ≤ 65535) →
+          (c'.s.sendMax.isSome → c'.s.sendCount + rest.length ≤ 4294967295) →
           ∃ a n pa pr pc, PidWf a ∧
             ((sendStoredLoop c' rest).1, (id, p) :: (sendStoredLoop c' rest).2).1.s =
               { c.s with pidMan := a, sendCount := n, puback := pa, pubrec := pr, pubcomp := pc } ∧
@@ -502,8 +502,8 @@ theorem sendStoredLoop_s {c : C} (hp : PidWf c.s.pidMan) (l : List (Nat × Pkt))
       by_cases hs : c.s.sendMax.isSome = true
       · have hlt := hb hs
         simp only [List.length_cons] at hlt
-        have hnp : ¬ (c.s.sendCount ≥ 65535) := by omega
-        have hmod : (c.s.sendCount + 1) % 65536 = c.s.sendCount + 1 := Nat.mod_eq_of_lt (by omega)
+        have hnp : ¬ (c.s.sendCount ≥ 4294967295) := by omega
+        have hmod : (c.s.sendCount + 1) % 4294967296 = c.s.sendCount + 1 := Nat.mod_eq_of_lt (by omega)
         simp only [hs, if_true, hnp, if_false, hmod]
         exact key (C.push { c with s := { c.s with sendCount := c.s.sendCount + 1 } } (.send p none))
           rfl hp (by intro _; simp only [push_s]; omega)
@@ -511,7 +511,7 @@ theorem sendStoredLoop_s {c : C} (hp : PidWf c.s.pidMan) (l : List (Nat × Pkt))
         exact key (c.push (.send p none)) rfl hp (by
           intro h'; simp only [push_s] at h'; exact absurd h' hs)
 
-theorem sendStored_s {c : C} (hp : PidWf c.s.pidMan) (hb : c.s.store.length ≤ 65535)
+theorem sendStored_s {c : C} (hp : PidWf c.s.pidMan) (hb : c.s.store.length ≤ 4294967295)
     (hn : (c.s.store.map (·.1)).Nodup) :
     ∃ a n pa pr pc st, PidWf a ∧
       (sendStored c).s =
@@ -533,8 +533,9 @@ theorem sendStored_s {c : C} (hp : PidWf c.s.pidMan) (hb : c.s.store.length ≤ 
       sendStoredLoop_s hp c.s.store (by intro h'; exact absurd h' hs) hn
     exact ⟨a, n, pa, pr, pc, _, ha, by rw [e], hsub, s1, s2, s3, fun i hi => (s4 i hi).2⟩
 
-/-- the bound under which `send_stored` cannot overflow `publish_send_count` -/
-def Headroom (s : St) : Prop := s.store.length ≤ 65535
+/-- the bound under which `send_stored` cannot overflow `publish_send_count` (a `u32` since fix
+    ab9a1ec); a consequence of the invariant, see `StoreRange.headroom` in `NoPanicStep.lean` -/
+def Headroom (s : St) : Prop := s.store.length ≤ 4294967295
 
 theorem sendStored_goodV {c : C} (h : GoodV c.s) (hb : Headroom c.s) :
     GoodV (sendStored c).s := by
